@@ -145,7 +145,15 @@ def a_confinement(ctx, t):
             for h in tr.handlers:
                 if h.type is not None and src(h.type) in ("ValueError", "Exception", "(ValueError,)"):
                     rets = [r for s in h.body for r in ast.walk(s) if isinstance(r, ast.Return)]
-                    if rets and "Could not load" in src(rets[0]) and not any(isinstance(x, ast.Raise) for s in h.body for x in ast.walk(s)):
+                    def _fixed(r):
+                        if "Could not load" in src(r):
+                            return True
+                        v = r.value
+                        if isinstance(v, ast.Call) and isinstance(v.func, ast.Name):
+                            helper = find_function(t, v.func.id)   # reply built by a local helper
+                            return helper is not None and any(isinstance(x, ast.Return) and "Could not load" in src(x) for x in ast.walk(helper))
+                        return False
+                    if rets and _fixed(rets[0]) and not any(isinstance(x, ast.Raise) for s in h.body for x in ast.walk(s)):
                         ok, msg = True, "ValueError from _get_rails is answered with the fixed 'Could not load ...' message"
         ctx.check("C20.a.fixed-reply", API, qualname(fn), first_line(c), ok, msg, line=c.lineno)
 
